@@ -160,7 +160,7 @@ def make_corr(prop, driver, gen, relevant=None, what_model="", discipline=None, 
     def run(tier, seed):
         res = {"rule": "scenario = client program (threads x ops, prefill) generated from the single seeded PRNG; every explored schedule "
                        "(exhaustive DFS under a preemption bound, seeded random, or solo-from-a-random-state) is executed on the real code under the "
-                       "cooperative scheduler and replayed access by access on the extracted Coq model (same history, same number of accesses per call, same KIND of every access - load / store / CAS / add, Lock / RLock / Unlock, send / receive / select / close, wait-group, timer, queue / adder method -, for the striped adders and the lock-free queue the same OBJECT of every access (two accesses touch one address in the implementation exactly when they touch one location of the model: base, cellsBusy, table pointer, slot i of array a, value of cell c; head, tail, next / item field of node n), same select choices, same final digest); distinct = distinct (scenario, schedule) pairs "
+                       "cooperative scheduler and replayed access by access on the extracted Coq model (same history, same number of accesses per call, same KIND of every access - load / store / CAS / add, Lock / RLock / Unlock, send / receive / select / close, wait-group, timer, queue / adder method -, for the striped adders, the lock-free queue and the breaker's own pointers the same OBJECT of every access (two accesses touch one address in the implementation exactly when they touch one location of the model: base, cellsBusy, table pointer, slot i of array a, value of cell c; head, tail, next / item field of node n), same select choices, same final digest); distinct = distinct (scenario, schedule) pairs "
                        "(DFS never repeats a schedule; random schedules are de-duplicated by the driver's choice string); "
                        "non-trivial = schedules with at least one preemption (control moved while the running thread could continue)"}
         ok, rexe, out = build_replayer()
